@@ -623,7 +623,7 @@ class NativeDigest(NativeCheck):
 class NativePool(NativeCheck):
     name = 'canonical_pool'
     props = ('C10', 'C12')
-    functions = (f'{GI}:generate_index', f'{UI}:update_index', f'{CM}:load_references')
+    functions = (f'{GI}:generate_index', f'{UI}:update_index', f'{CM}:load_references', 'moPepGen/aa/AminoAcidSeqDict.py:AminoAcidSeqDict.create_unique_peptide_pool')
     bounded_for = 'create_unique_peptide_pool = digest spec of every protein (+ I->L images); pools built by generateIndex / on the fly for the CLI parameters'
     bound = ('random proteomes: 1-4 proteins of length 5-60 over KRPMWCDILAG with leading X / internal * / cds_start_NF; trypsin(+exception), lysc, asp-n; '
              'plus the demo proteome through generate_index + load_canonical_peptides and through load_references (raw files) with exception auto / explicit / None')
@@ -700,3 +700,190 @@ class NativePool(NativeCheck):
 
 
 NATIVE = [NativeDigest(), NativePool()]
+
+
+# ----------------------------------------------------------------------------
+# O5: create_unique_peptide_pool — per-protein preparation, cds_start_nf flow, I->L images
+# ----------------------------------------------------------------------------
+AAD = 'moPepGen/aa/AminoAcidSeqDict.py'
+
+
+class ProtSeq:
+    """sequence of proteome entry k after a list of preparation steps"""
+    def __init__(self, st, k, ops=()):
+        self.st, self.k, self.ops = st, k, tuple(ops)
+
+    def sym_method(self, I, name, a, k):
+        st = self.st
+        if name == 'startswith' and a == ['X']:
+            return st.startsX(self.k) if not self.ops else z3.BoolVal(False) if 'lstripX' in self.ops else I.e.bool('startsX_later')
+        if name == 'lstrip' and a == ['X']:
+            return ProtSeq(st, self.k, self.ops + ('lstripX',))
+        if name == 'find' and a == ['*']:
+            f = st.stop_after_strip if 'lstripX' in self.ops else st.stop_raw
+            return f(self.k) if not any(isinstance(o, tuple) for o in self.ops) else z3.IntVal(-1)
+        if name == 'split' and a == ['X']:
+            return [ProtSeq(st, self.k, self.ops + ('beforeX',))]
+        raise Unsupported(f'protein.seq.{name}{a}')
+
+
+@register
+class UniquePeptidePool(Contract):
+    path, qualname, props = AAD, 'AminoAcidSeqDict.create_unique_peptide_pool', ('C10',)
+    assumptions = ('modular: AminoAcidSeqRecord.enzymatic_cleave is used through a stub (its result is compared with the digest spec by the bounded check `digest`)',
+                   'assumed: iter(self.values()) / next(it, None) enumerate the proteome entries once, in order')
+
+    def setup(self, I):
+        e = I.e
+        st = types.SimpleNamespace()
+        st.N = e.int('N')
+        e.assume(st.N >= 0)
+        st.startsX = z3.Function('starts_with_X', I_, B_)
+        st.stop_raw = z3.Function('first_stop_raw', I_, I_)
+        st.stop_after_strip = z3.Function('first_stop_after_strip', I_, I_)
+        st.inanno = z3.Function('tx_in_annotation', I_, B_)
+        st.nf = z3.Function('is_cds_start_nf', I_, B_)
+        st.par = dict(rule=SymStr(z3.Const('rule', e.StrSort)), exception=SymStr(z3.Const('exception', e.StrSort)),
+                      miscleavage=e.int('miscleavage'), min_mw=e.real('min_mw'), min_length=e.int('min_length'), max_length=e.int('max_length'))
+        st.cache = {}
+        def prot_at(k):
+            kz = k if is_z3(k) else z3.IntVal(k)
+            key = z3.simplify(kz).sexpr()
+            if key not in st.cache:
+                st.cache[key] = SymObj('AminoAcidSeqRecord', transcript_id=SymObj('TxId', idx=kz), seq=ProtSeq(st, kz), k=kz)
+            return st.cache[key]
+        st.prot_at = prot_at
+        st.values = FnView(st.N, prot_at, tag='proteome')
+        st.self = SymObj('AminoAcidSeqDict')
+        tx = SymObj('TxMap')
+        st.anno = SymObj('AnnoStubP', transcripts=tx)
+        st.adds = []
+        st.cleaves = []
+        st.args = [st.self]
+        st.kwargs = dict(anno=st.anno, **st.par)
+        self._cur = st
+        return st
+
+    @property
+    def models(self):
+        return (self.install_models,)
+
+    def install_models(self, reg):
+        c = self
+        reg.method_('AminoAcidSeqDict', 'values', lambda I, o, a, k: c._cur.values)
+
+        class Iter:
+            def __init__(s):
+                s.pos = z3.IntVal(0)
+            def sym_next(s, I, rest):
+                st = c._cur
+                if I.e.branch(s.pos < st.N, 'more proteins'):
+                    v = st.prot_at(s.pos)
+                    s.pos = s.pos + 1
+                    return v
+                return rest[0] if rest else I.raise_('StopIteration')
+        reg.iter_hooks.append(lambda I, v: (setattr(c._cur, 'it', Iter()) or c._cur.it) if v is c._cur.values else None)
+        reg.protocol_('TxMap', '__contains__', lambda I, o, item: c._cur.inanno(item.fields['idx']))
+        reg.protocol_('TxMap', '__getitem__', lambda I, o, key: SymObj('TxModelP', k=key.fields['idx']))
+        reg.method_('TxModelP', 'is_cds_start_nf', lambda I, o, a, k: c._cur.nf(o.fields['k']))
+
+        def getslice(I, o, lo, hi):
+            if lo is not None:
+                raise Unsupported('protein[lo:hi]')
+            return SymObj('AminoAcidSeqRecord', transcript_id=o.fields['transcript_id'],
+                          seq=ProtSeq(c._cur, o.fields['k'], o.fields['seq'].ops + (('cut', hi),)), k=o.fields['k'])
+        reg.protocol_('AminoAcidSeqRecord', '__getslice__', getslice)
+
+        def cleave(I, o, a, k):
+            st = c._cur
+            st.cleaves.append((o, dict(k)))
+            e = I.e
+            pk = st.cur_pos
+            e.prove('C10/O5/digests-the-current-proteome-entry', z3.simplify(o.fields['k'] == pk))
+            for name in ('rule', 'exception', 'miscleavage', 'min_mw', 'min_length', 'max_length'):
+                e.prove(f'C10/O5/passes-{name}-unchanged', k.get(name) is st.par[name])
+            e.prove('C10/O5/cds_start_nf-of-this-transcript-or-False-if-unknown',
+                    as_bool(k.get('cds_start_nf')) == z3.If(st.inanno(pk), st.nf(pk), False))
+            ops = o.fields['seq'].ops
+            if 'beforeX' not in ops:
+                e.prove('C10/O5/leading-X-removed', z3.Implies(st.startsX(pk), 'lstripX' in ops))
+                stop = st.stop_after_strip(pk) if 'lstripX' in ops else st.stop_raw(pk)
+                cuts = [o_ for o_ in ops if isinstance(o_, tuple)]
+                e.prove('C10/O5/cut-at-the-first-stop', z3.If(stop > -1, len(cuts) == 1 and z3.simplify(cuts[0][1] == stop) if cuts else False, len(cuts) == 0))
+            ch = e.choose(3, 'cleave outcome')
+            if ch == 1:
+                raise PyRaise(SymExc('ValueError', ["'X' is not a valid unambiguous letter for protein"]))
+            if ch == 2:
+                raise PyRaise(SymExc('ValueError', ['something else']))
+            n = e.int('n_peptides')
+            e.assume(n >= 0)
+            return FnView(n, lambda i: SymObj('PepRec', seq=SymObj('PepSeq', i=i if is_z3(i) else z3.IntVal(i))), tag='peptides')
+        reg.method_('AminoAcidSeqRecord', 'enzymatic_cleave', cleave)
+        reg.str_hooks.append(lambda v: (lambda I, v: PepStr(v)) if isinstance(v, SymObj) and v.cls == 'PepSeq' else None)
+
+    def main_havoc(self, I, env, k):
+        st = self._cur
+        e = I.e
+        pos = e.int('pos')
+        e.assume(z3.And(0 <= pos, pos <= st.N))
+        st.cur_pos = pos
+        class Pool:
+            def sym_method(s_, I2, name, a, kw):
+                if name == 'add':
+                    st.adds.append(a[0])
+                    return None
+                raise Unsupported(name)
+        env['pool'] = Pool()
+        if e.branch(pos < st.N, 'a protein is pending'):
+            p = st.prot_at(pos)
+            # at an arbitrary iteration the entry may already have been shortened by the X-retry path
+            if e.branch(e.bool('retried'), 'retry after X'):
+                p.fields['seq'] = ProtSeq(st, pos, ('beforeX',))
+            else:
+                p.fields['seq'] = ProtSeq(st, pos)
+            env['protein'] = p
+            st.it.pos = pos + 1
+        else:
+            env['protein'] = None
+            st.it.pos = pos
+
+    def main_on_head(self, I, env, k):
+        self._cur.c0 = len(self._cur.cleaves)
+
+    def main_step(self, I, env, k):
+        st = self._cur
+        return [('each-pending-protein-is-digested-or-retried', len(st.cleaves) - st.c0 == 1)]
+
+    def pep_on_head(self, I, env, k):
+        self._cur.a0 = len(self._cur.adds)
+
+    def pep_step(self, I, env, k):
+        st = self._cur
+        new = st.adds[st.a0:]
+        ok = len(new) == 2 and isinstance(new[0], PepStr) and z3.is_true(z3.simplify(new[0].v.fields['i'] == k)) \
+            and isinstance(new[1], Replaced) and new[1].of.v is new[0].v and (new[1].a, new[1].b) == ('I', 'L')
+        return [('pool-gets-the-peptide-and-its-I-to-L-image', ok)]
+
+    @property
+    def loops(self):
+        T = lambda I, env, k: []
+        return {0: LoopSpec(inv=T, havoc=self.main_havoc, on_head=self.main_on_head, step=self.main_step),
+                1: LoopSpec(inv=T, on_head=self.pep_on_head, step=self.pep_step)}
+
+    def post_raise(self, I, st, exc):
+        I.e.prove('C10/O5/only-a-foreign-ValueError-of-the-digest-propagates', exc.cls == 'ValueError' and exc.msg == 'something else')
+
+
+class PepStr:
+    def __init__(self, v):
+        self.v = v
+
+    def sym_method(self, I, name, a, k):
+        if name == 'replace':
+            return Replaced(self, a[0], a[1])
+        raise Unsupported(f'str.{name}')
+
+
+class Replaced:
+    def __init__(self, of, a, b):
+        self.of, self.a, self.b = of, a, b
